@@ -41,6 +41,9 @@ func init() { register("C04", "model_checking", runC04) }
 const (
 	causeF1 = "i2rw-fired-with-own-recv-high"
 	causeF2 = "r2owa-retired-in-issue-tick-on-stale-recv"
+	// not the recorded defect: a consumer's recv stayed high for more than two ticks after valid had
+	// fallen (the pinned deferred drop lowers it in the tick after)
+	causeStuck = "consumer-recv-left-high-after-valid-fell"
 )
 
 // bondProg is a straight-line program per processor over the alphabet SEND/RECV/PAD.
@@ -85,6 +88,8 @@ func opsProgram(ops []string, send bool) string {
 		case "RECV":
 			fmt.Fprintf(&sb, "i2rw r%d i0\n", n)
 			n++
+		case "SICV": // the other handshaked input instruction: completes a transfer without keeping the value
+			sb.WriteString("sicv3 r15 i0\n")
 		default:
 			sb.WriteString("nop\n")
 		}
@@ -102,7 +107,13 @@ func buildBondMachine(p bondProg) (*bondmachine.Bondmachine, error) {
 	}
 	addProc(bm, pm)
 	for i, c := range p.Cons {
-		cm, err := mkMachine(8, 4, 1, 0, 0, []string{"nop", "r2owa", "i2rw"}, opsProgram(c, false))
+		ops := []string{"nop", "r2owa", "i2rw"}
+		for _, o := range c {
+			if o == "SICV" {
+				ops = []string{"nop", "r2owa", "i2rw", "sicv3"}
+			}
+		}
+		cm, err := mkMachine(8, 4, 1, 0, 0, ops, opsProgram(c, false))
 		if err != nil {
 			return nil, fmt.Errorf("consumer %d: %v", i, err)
 		}
@@ -146,6 +157,7 @@ func runBondSim(p bondProg, nticks int) ([]bondTick, error) {
 		}
 		return n
 	}
+	stuck := make([]int, K) // ticks a consumer's recv has been high while the producer's valid is low
 	for t := 0; t < nticks; t++ {
 		bt := bondTick{Ev: "tick", Iss: []uint64{}, Crs: []bondCR{}}
 		ppc := prod.Pc
@@ -180,8 +192,11 @@ func runBondSim(p bondProg, nticks int) ([]bondTick, error) {
 		for c := 0; c < K; c++ {
 			cv := vm.Processors[c+1]
 			ops := p.Cons[c]
-			if cpc[c] < uint64(len(ops)) && ops[cpc[c]] == "RECV" && cv.Pc == cpc[c]+1 {
+			if cpc[c] < uint64(len(ops)) && (ops[cpc[c]] == "RECV" || ops[cpc[c]] == "SICV") && cv.Pc == cpc[c]+1 {
 				v := u64(cv.Registers[recvIdx(ops, cpc[c])])
+				if ops[cpc[c]] == "SICV" {
+					v = u64(cv.Inputs[0]) // the value on the input when the transfer completed
+				}
 				bt.Crs = append(bt.Crs, bondCR{C: c + 1, V: v})
 				caps[c] = append(caps[c], v)
 				if crecvBefore[c] {
@@ -189,9 +204,22 @@ func runBondSim(p bondProg, nticks int) ([]bondTick, error) {
 				}
 			}
 		}
+		wasStuck := false
+		for c := 0; c < K; c++ {
+			if stuck[c] > 2 {
+				wasStuck = true
+			}
+			if vm.Processors[c+1].InputsRecv[0] && !prod.OutputsValid[0] {
+				stuck[c]++
+			} else {
+				stuck[c] = 0
+			}
+		}
 		switch {
 		case f1:
 			bt.Cause = causeF1
+		case issuedNow && bt.Pr && wasStuck:
+			bt.Cause = causeStuck
 		case issuedNow && bt.Pr:
 			bt.Cause = causeF2
 		default:
@@ -692,6 +720,16 @@ func runC04(r *evid.Run) {
 				}
 				p.Cons = append(p.Cons, ops)
 			}
+			if be.name == "sim" && i%3 == 0 {
+				// consumers that take some of the values with sicv3
+				for c := range p.Cons {
+					for j, o := range p.Cons[c] {
+						if o == "RECV" && rng.Intn(2) == 0 {
+							p.Cons[c][j] = "SICV"
+						}
+					}
+				}
+			}
 			if be.delays && rng.Intn(3) == 0 {
 				p.Delays = map[string]int{}
 				for _, op := range []string{"nop", "r2owa", "i2rw"} {
@@ -711,6 +749,12 @@ func runC04(r *evid.Run) {
 		}
 	}
 	r.Set("hdl_hang_reproduced", hangs)
+	if os.Getenv("VERIF_C04_BACKEND") == "" {
+		if err := singleShotLogs(record); err != nil {
+			r.Inconclusive("single-shot environment: %v", err)
+			return
+		}
+	}
 	tf.Close()
 
 	r.Set("states", states)
